@@ -92,7 +92,7 @@ func runCmds(out *core.Outcome, img []byte, areaOff uint32, recs []rec, origs ma
 		O("cmd-list", strings.Join(wantTextLines(want), "\n"), strings.Join(gotTextLines(text, want), "\n"))
 	}
 	if err == nil { // M: what the command prints is, byte for byte, the modelled Image.String()
-		out.Checks = append(out.Checks, core.Check{Tag: "M", What: "cmd-text", Req: "text " + core.Hex(img),
+		out.Checks = append(out.Checks, core.Check{Tag: "M", What: "cmd-text", Req: vreq("text " + core.Hex(img)),
 			Exp: fmt.Sprintf("%d %d", core.FNV([]byte(text)), len(text))})
 	}
 
@@ -103,7 +103,7 @@ func runCmds(out *core.Outcome, img []byte, areaOff uint32, recs []rec, origs ma
 		O("cmd-json", wantJSON(areaOff, want), gotJSON([]byte(js), want))
 	}
 	if err == nil { // M: the keys and values of the command's (indented) JSON are the modelled structure
-		out.Checks = append(out.Checks, core.Check{Tag: "M", What: "cmd-json-fields", Req: "json " + core.Hex(img), Exp: canonJSON([]byte(js))})
+		out.Checks = append(out.Checks, core.Check{Tag: "M", What: "cmd-json-fields", Req: vreq("json " + core.Hex(img)), Exp: canonJSON([]byte(js))})
 	}
 
 	// extract: one file per non-empty record, holding the (decompressed) content
